@@ -132,9 +132,19 @@ def str_method(I, s, name):
         if m is not None:
             return m
         s = s.to_z3()
+    if isinstance(s, Rope):
+        m = rope_method(I, s, name)
+        if m is not None:
+            return m
+        raise Unsupported(f"str.{name} on a rope")
 
     if isinstance(s, str):
         def conc_call(I_, a, k):
+            if any(isinstance(x, Rope) for x in a) or (name == "join" and a and any(isinstance(x, Rope) for x in I_.iter_concrete(a[0]))):
+                m = rope_method(I_, Rope([Lit(s)]), name)
+                if m is None:
+                    raise Unsupported(f"str.{name} with rope arguments")
+                return m.fn(I_, a, k)
             a = [I_.unC(x) for x in a]
             if name == "join":
                 items = I_.iter_concrete(a[0])
@@ -264,6 +274,25 @@ def _unsup(m):
 def str_getitem(I, s, idx):
     from .heap import SliceObj
     from .natives import slice_indices, norm_index
+    if isinstance(s, Rope) or isinstance(idx, RopePos) or (isinstance(idx, SliceObj) and (isinstance(idx.start, RopePos) or isinstance(idx.stop, RopePos))):
+        r = rope_of(s)
+        if r is None:
+            raise Unsupported("rope position on a non-rope string")
+        if isinstance(idx, SliceObj):
+            if idx.step not in (None, 1):
+                raise Unsupported("rope slice with step")
+            return simple_norm(rope_slice(r, idx.start, idx.stop))
+        i = I.unC(idx)
+        if isinstance(i, int):
+            seg = (r.segs[0] if i >= 0 else r.segs[-1]) if r.segs else None
+            if seg is None:
+                I.throw("IndexError", "string index out of range")
+            if isinstance(seg, Lit) and (0 <= i < len(seg.s) or -len(seg.s) <= i < 0):
+                return seg.s[i]
+            if isinstance(seg, Dec) and i == 0:
+                # first character of a number: '-' or a digit
+                return FirstChar(seg.t)
+        raise Unsupported("rope index")
     if isinstance(s, CStr):
         if isinstance(idx, SliceObj):
             a, b, c = (I.unC(x) for x in (idx.start, idx.stop, idx.step))
@@ -310,6 +339,8 @@ def int_of_str(I, s, base=10):
         raise Unsupported("int() with base != 10")
     if isinstance(s, CStr):
         return cstr_int(I, s)
+    if isinstance(s, Rope):
+        return rope_int(I, s)
     if isinstance(s, str):
         try:
             return int(s)
@@ -408,3 +439,347 @@ def percent_format(I, fmt, arg):
     if all(isinstance(x, (int, str, float)) for x in args):
         return fmt % args
     raise Unsupported("% formatting with symbolic arguments")
+
+
+# ==========================================================================
+# Rope: strings built from literals and decimal representations of integers.
+# Exact structural semantics (no SMT string theory): a Dec segment is the
+# decimal representation of an integer term -- non-empty, characters in
+# [0-9] with an optional leading '-'.
+
+class FirstChar:
+    """first character of the decimal representation of t"""
+    def __init__(self, t):
+        self.t = t
+
+    def to_z3(self):
+        t = zint(self.t)
+        return z3.SubString(z3.If(t >= 0, z3.IntToStr(t), z3.StringVal("-")), 0, 1)
+
+
+class Lit:
+    __slots__ = ("s",)
+
+    def __init__(self, s):
+        self.s = s
+
+
+class Dec:
+    __slots__ = ("t",)
+
+    def __init__(self, t):
+        self.t = t
+
+
+DECCHARS = set("0123456789-")
+_declen = None
+
+
+def declen(t):
+    """number of characters of str(t)"""
+    global _declen
+    if isinstance(t, int):
+        return len(str(t))
+    if _declen is None:
+        _declen = z3.Function("declen", z3.IntSort(), z3.IntSort())
+    return _declen(t)
+
+
+class Rope:
+    def __init__(self, segs):
+        out = []
+        for s in segs:
+            if isinstance(s, Lit):
+                if not s.s:
+                    continue
+                if out and isinstance(out[-1], Lit):
+                    out[-1] = Lit(out[-1].s + s.s)
+                else:
+                    out.append(s)
+            elif isinstance(s, Dec) and isinstance(simp(s.t), int):
+                v = str(simp(s.t))
+                if out and isinstance(out[-1], Lit):
+                    out[-1] = Lit(out[-1].s + v)
+                else:
+                    out.append(Lit(v))
+            else:
+                out.append(s)
+        self.segs = out
+
+    def concrete(self):
+        if not self.segs:
+            return ""
+        if len(self.segs) == 1 and isinstance(self.segs[0], Lit):
+            return self.segs[0].s
+        return None
+
+    def to_z3(self):
+        parts = []
+        for s in self.segs:
+            if isinstance(s, Lit):
+                parts.append(z3.StringVal(s.s))
+            else:
+                t = zint(s.t)
+                parts.append(z3.If(t >= 0, z3.IntToStr(t), z3.Concat(z3.StringVal("-"), z3.IntToStr(-t))))
+        if not parts:
+            return z3.StringVal("")
+        return z3.Concat(*parts) if len(parts) > 1 else parts[0]
+
+    def length(self):
+        n = 0
+        for s in self.segs:
+            n = n + (len(s.s) if isinstance(s, Lit) else declen(s.t))
+        return n
+
+    def __repr__(self):
+        return "Rope(" + " ".join(repr(s.s) if isinstance(s, Lit) else f"<{s.t}>" for s in self.segs) + ")"
+
+
+class RopePos:
+    """index into a rope: `off` characters into literal segment `seg`"""
+    def __init__(self, rope, seg, off):
+        self.rope, self.seg, self.off = rope, seg, off
+
+
+def rope_of(v):
+    from .interp import OpaqueStr
+    if isinstance(v, Rope):
+        return v
+    if isinstance(v, str):
+        return Rope([Lit(v)])
+    return None
+
+
+def simple_norm(r):
+    c = r.concrete()
+    return c if c is not None else r
+
+
+def lit_safe(sub):
+    """a literal that cannot overlap a Dec segment"""
+    return isinstance(sub, str) and len(sub) > 0 and not (set(sub) & DECCHARS)
+
+
+def rope_contains(r, sub):
+    if not lit_safe(sub):
+        raise Unsupported(f"substring test of {sub!r} against a rope")
+    return any(isinstance(s, Lit) and sub in s.s for s in r.segs)
+
+
+def rope_find(r, sub, reverse=False):
+    if not lit_safe(sub):
+        raise Unsupported(f"find of {sub!r} in a rope")
+    idxs = range(len(r.segs) - 1, -1, -1) if reverse else range(len(r.segs))
+    for k in idxs:
+        s = r.segs[k]
+        if isinstance(s, Lit):
+            p = s.s.rfind(sub) if reverse else s.s.find(sub)
+            if p >= 0:
+                return RopePos(r, k, p)
+    return None
+
+
+def rope_slice(r, a, b):
+    """r[a:b] with a, b None | int | RopePos"""
+    def norm(p, default_end):
+        if p is None:
+            return None
+        if isinstance(p, RopePos):
+            if p.rope is not r:
+                raise Unsupported("slice position of another string")
+            return (p.seg, p.off)
+        if isinstance(p, int):
+            if p < 0:
+                # from the end: only inside a trailing literal
+                last = r.segs[-1] if r.segs else None
+                if isinstance(last, Lit) and -p <= len(last.s):
+                    return (len(r.segs) - 1, len(last.s) + p)
+                raise Unsupported("negative slice bound reaching into a number")
+            first = r.segs[0] if r.segs else None
+            if p == 0:
+                return (0, 0)
+            if isinstance(first, Lit) and p <= len(first.s):
+                return (0, p)
+            raise Unsupported("integer slice bound reaching into a number")
+        raise Unsupported("symbolic slice bound on a rope")
+    sa = norm(a, False) or (0, 0)
+    sb = norm(b, True)
+    if sb is None:
+        sb = (len(r.segs), 0)
+    if sa > sb:
+        return Rope([])
+    out = []
+    for k, s in enumerate(r.segs):
+        if k < sa[0] or k > sb[0]:
+            continue
+        if isinstance(s, Lit):
+            lo = sa[1] if k == sa[0] else 0
+            hi = sb[1] if k == sb[0] else len(s.s)
+            out.append(Lit(s.s[lo:hi]))
+        else:
+            if k == sa[0] and sa[1] != 0:
+                raise Unsupported("slice starting inside a number")
+            if k == sb[0]:
+                continue        # (k, 0): ends before this segment
+            out.append(s)
+    return Rope(out)
+
+
+def rope_split(r, sep, maxsplit=-1):
+    if not lit_safe(sep):
+        raise Unsupported(f"split of a rope at {sep!r}")
+    parts, cur = [], []
+    n = 0
+    for s in r.segs:
+        if isinstance(s, Lit):
+            pieces = s.s.split(sep) if maxsplit < 0 else s.s.split(sep, maxsplit - n)
+            for i, pc in enumerate(pieces):
+                if i > 0:
+                    parts.append(Rope(cur))
+                    cur = []
+                    n += 1
+                cur.append(Lit(pc))
+        else:
+            cur.append(s)
+    parts.append(Rope(cur))
+    return parts
+
+
+def rope_strip(r, chars, left=True, right=True):
+    if set(chars) & DECCHARS:
+        raise Unsupported("strip of digit characters from a rope")
+    segs = list(r.segs)
+    if left and segs and isinstance(segs[0], Lit):
+        segs[0] = Lit(segs[0].s.lstrip(chars))
+    if right and segs and isinstance(segs[-1], Lit):
+        segs[-1] = Lit(segs[-1].s.rstrip(chars))
+    return Rope(segs)
+
+
+def rope_int(I, r):
+    segs = r.segs
+    if len(segs) == 1 and isinstance(segs[0], Dec):
+        return segs[0].t
+    c = r.concrete()
+    if c is not None:
+        try:
+            return int(c)
+        except ValueError:
+            I.throw("ValueError", "invalid literal for int()")
+    # whitespace / sign around one number
+    if all(isinstance(s, Dec) or (isinstance(s, Lit)) for s in segs):
+        lits = "".join(s.s for s in segs if isinstance(s, Lit))
+        decs = [s for s in segs if isinstance(s, Dec)]
+        if len(decs) == 1 and lits.strip() == "" and (isinstance(segs[0], Lit) or True):
+            # only whitespace around the number
+            if all(ch in WS for ch in lits):
+                return decs[0].t
+        if any(ch not in "0123456789+-_ \t\n\r" for ch in lits):
+            I.throw("ValueError", "invalid literal for int()")
+    raise Unsupported(f"int() of {r!r}")
+
+
+def rope_eq(I, a, b):
+    """structural equality of two ropes (None: cannot decide structurally)"""
+    from .natives import conj
+    if len(a.segs) != len(b.segs):
+        # a literal can equal literal+number only if ... -> fall back
+        return None
+    conds = []
+    for x, y in zip(a.segs, b.segs):
+        if isinstance(x, Lit) and isinstance(y, Lit):
+            if x.s != y.s:
+                return False
+        elif isinstance(x, Dec) and isinstance(y, Dec):
+            conds.append(zint(x.t) == zint(y.t))
+        else:
+            return None
+    # equal segment structure with literals that cannot be parts of numbers
+    # at the junctions: numbers must be equal
+    for k, s in enumerate(a.segs):
+        if isinstance(s, Lit):
+            prev_dec = k > 0 and isinstance(a.segs[k - 1], Dec)
+            next_dec = k + 1 < len(a.segs) and isinstance(a.segs[k + 1], Dec)
+            if (prev_dec and s.s[0] in DECCHARS) or (next_dec and s.s[-1] in "0123456789"):
+                return None
+    return conj(conds)
+
+
+def rope_method(I, r, name):
+    from .heap import PList as PL
+
+    def N(fn):
+        return Native("str." + name, fn)
+
+    def nz(x):
+        return simple_norm(x) if isinstance(x, Rope) else x
+    if name in ("startswith", "endswith"):
+        def f(I_, a, k):
+            pre = a[0]
+            pres = pre if isinstance(pre, tuple) else (pre,)
+            res = False
+            for p in pres:
+                if not isinstance(p, str):
+                    raise Unsupported("startswith with symbolic prefix")
+                if p == "":
+                    return True
+                seg = (r.segs[0] if name == "startswith" else r.segs[-1]) if r.segs else Lit("")
+                if isinstance(seg, Lit):
+                    if len(seg.s) >= len(p) or len(r.segs) == 1:
+                        res = res or (seg.s.startswith(p) if name == "startswith" else seg.s.endswith(p))
+                        continue
+                    # prefix longer than the first literal: needs number characters
+                    if set(p[len(seg.s):]) & DECCHARS or set(p[:-len(seg.s) or None]) & DECCHARS:
+                        raise Unsupported("prefix test reaching into a number")
+                    continue
+                # starts with a number
+                if set(p) & DECCHARS:
+                    raise Unsupported("prefix test against a number")
+            return res
+        return N(f)
+    if name == "index" or name == "find" or name == "rindex" or name == "rfind":
+        def f(I_, a, k):
+            pos = rope_find(r, a[0], reverse=name.startswith("r"))
+            if pos is None:
+                if name in ("index", "rindex"):
+                    I_.throw("ValueError", "substring not found")
+                return -1
+            return pos
+        return N(f)
+    if name == "split":
+        def f(I_, a, k):
+            if not a or a[0] is None:
+                raise Unsupported("whitespace split of a rope")
+            ms = a[1] if len(a) > 1 else k.get("maxsplit", -1)
+            return PL([nz(x) for x in rope_split(r, a[0], ms)])
+        return N(f)
+    if name in ("strip", "lstrip", "rstrip"):
+        def f(I_, a, k):
+            chars = a[0] if a and a[0] is not None else WS
+            return nz(rope_strip(r, chars, name != "rstrip", name != "lstrip"))
+        return N(f)
+    if name == "join":
+        def f(I_, a, k):
+            items = I_.iter_concrete(a[0])
+            segs = []
+            for i, x in enumerate(items):
+                if i:
+                    segs.extend(r.segs)
+                rx = rope_of(x)
+                if rx is None:
+                    raise Unsupported("join of non-rope strings")
+                segs.extend(rx.segs)
+            return nz(Rope(segs))
+        return N(f)
+    if name == "replace":
+        def f(I_, a, k):
+            old, new = a[0], a[1]
+            if not (lit_safe(old) and isinstance(new, str)):
+                raise Unsupported("replace on a rope")
+            return nz(Rope([Lit(s.s.replace(old, new)) if isinstance(s, Lit) else s for s in r.segs]))
+        return N(f)
+    if name == "__len__":
+        return N(lambda I_, a, k: r.length())
+    if name == "encode":
+        return N(lambda I_, a, k: r)
+    return None
